@@ -43,6 +43,27 @@ type tgen struct {
 	users []*tdesc // object descs of the user types (may reference each other: cycles)
 	names []string
 	isRT  []bool
+	// pool: inline object descriptions without user types inside; a description drawn from it a second time is
+	// built as ONE *expr.Object reachable twice (what Reference/Extend and shared inline payloads give goa)
+	pool []*tdesc
+}
+
+func pureInline(d *tdesc) bool {
+	if d == nil {
+		return true
+	}
+	if d.Kind == "user" {
+		return false
+	}
+	if !pureInline(d.Elem) || !pureInline(d.Key) {
+		return false
+	}
+	for _, f := range d.Fields {
+		if !pureInline(f.T) {
+			return false
+		}
+	}
+	return true
 }
 
 var c13prims = []expr.Primitive{expr.String, expr.Int, expr.Boolean, expr.Float64, expr.Bytes, expr.Any, expr.UInt32, expr.Int64}
@@ -69,7 +90,14 @@ func (g *tgen) desc(depth int) *tdesc {
 	case 2:
 		return &tdesc{Kind: "map", Key: &tdesc{Kind: "prim", Prim: expr.String}, Elem: g.desc(depth - 1)}
 	case 3:
-		return g.object(depth - 1)
+		if len(g.pool) > 0 && g.t.Draw("reuse-object", 4) == 0 {
+			return g.pool[g.t.Draw("which-pooled", len(g.pool))]
+		}
+		od := g.object(depth - 1)
+		if pureInline(od) {
+			g.pool = append(g.pool, od)
+		}
+		return od
 	case 4:
 		u := &tdesc{Kind: "union", Name: fmt.Sprintf("U%d", g.t.Draw("uname", 4))}
 		n := 2 + g.t.Draw("nalts", 3)
@@ -123,6 +151,9 @@ type builder struct {
 	// another name, retag gives the retag-th object attribute another struct:field:name tag (-1: none)
 	rename, retag int
 	fields        int
+	// unshare: build a description met twice as two objects (default: one object reachable twice)
+	unshare bool
+	objs    map[*tdesc]*expr.Object
 }
 
 func (b *builder) order(n int) []int {
@@ -196,7 +227,14 @@ func (b *builder) dt(d *tdesc) expr.DataType {
 	case "map":
 		return &expr.Map{KeyType: &expr.AttributeExpr{Type: b.dt(d.Key)}, ElemType: &expr.AttributeExpr{Type: b.dt(d.Elem)}}
 	case "object":
+		if po, ok := b.objs[d]; ok && !b.unshare {
+			return po
+		}
 		o := &expr.Object{}
+		if b.objs == nil {
+			b.objs = map[*tdesc]*expr.Object{}
+		}
+		b.objs[d] = o
 		for _, i := range b.order(len(d.Fields)) {
 			f := d.Fields[i]
 			a := b.att(f)
@@ -615,6 +653,24 @@ func runC13(t *verifsim.Tape, cfg engine.Config) *engine.Outcome {
 			}
 			o.Violate("hash_depends_on_declaration_order", "hash_declaration_order:"+cls, "the same type declared in another attribute/alternative order hashes differently (flag set %d):\n  %s\n  %s\n  type %s", fi, clipStr(a, 400), clipStr(b, 400), clipStr(before, 500))
 			break
+		}
+	}
+	// the same structure with every inline object built afresh at each place it occurs: hashes see structure, not
+	// which pointers happen to be shared
+	{
+		ub := &builder{g: g, leaf: -1, uts: make([]expr.UserType, len(g.users)), rename: -1, retag: -1, unshare: true}
+		unshared := ub.dt(root)
+		if snapshot(unshared) == before {
+			o.Features["sharing_checked"]++
+			for fi, f := range hashFlags {
+				if a, b := expr.Hash(orig, f[0], f[1], f[2]), expr.Hash(unshared, f[0], f[1], f[2]); a != b {
+					o.Violate("hash_depends_on_sharing", fmt.Sprintf("hash_depends_on_sharing:flags#%d", fi), "two structurally identical types, one of which reaches an inline object through two attributes, hash differently (flag set %d):\n  %s\n  %s\n  type %s", fi, clipStr(a, 400), clipStr(b, 400), clipStr(before, 500))
+					break
+				}
+			}
+			if !expr.Equal(orig, unshared) {
+				o.Violate("hash_depends_on_sharing", "equal_depends_on_sharing", "expr.Equal is false for two structurally identical types that differ in pointer sharing only: %s", clipStr(before, 500))
+			}
 		}
 	}
 	// count primitives to pick a leaf
